@@ -116,13 +116,15 @@ class TLCResult:
     def tuples(self, tag):
         """All PrintT(<<"tag", ...>>) outputs, returned as the raw text after the tag."""
         res = []
-        pat = '<<"' + tag + '"'
+        # TLC pretty-prints tuples longer than 80 columns as `<< "TAG",\n   1, ...` (space after <<)
+        pat = re.compile(r'<<\s*"' + re.escape(tag) + '"')
         i = 0
         s = self.out
         while True:
-            i = s.find(pat, i)
-            if i < 0:
+            m = pat.search(s, i)
+            if m is None:
                 break
+            i = m.start()
             depth = 0
             j = i
             instr = False
